@@ -1,12 +1,12 @@
 from .common import pyvc_units
 
 LEVEL = "other"
-MODULES = ["vf.contracts.c_circuit_modes", "vf.contracts.c_heralding", "vf.contracts.c_matrix"]
+MODULES = ["vf.contracts.c_circuit_modes", "vf.contracts.c_heralding", "vf.contracts.c_matrix", "vf.contracts.c_specshift"]
 EXPLANATION = (
     "Clause table. PROVED (pyvc, unbounded in mode count / ancilla count / list length): Circuit._map_mode returns the mode-th user-visible "
     "full mode (not an ancilla; exactly k ancillas below it) for every set of distinct internal modes [loop invariant with ghost rank k, "
     "sorted() contract with index maps]; Circuit.herald maps input and output modes with _map_mode (short form: same mode for both), writes the four herald maps, "
-    "raises TypeError / ModeRangeError / ValueError exactly under the stated conditions and changes nothing when it raises; Circuit._add_empty_mode increases the mode count by one and shifts every key of the four herald maps and every internal mode by [x >= mode], keeping values and the insertion order of the maps (which pairs input with output heralds). BOUNDED (mechanism C, exhaustive, labelled bounded, never counted as proved): the contract of "
+    "raises TypeError / ModeRangeError / ValueError exactly under the stated conditions and changes nothing when it raises; Circuit._add_empty_mode increases the mode count by one and shifts every key of the four herald maps and every internal mode by [x >= mode], keeping values and the insertion order of the maps (which pairs input with output heralds); add_mode_to_unitary embeds an NxN block into (N+1)x(N+1) with the new mode decoupled (all N, block slices); add_empty_mode_to_circuit_spec and add_modes_to_circuit_spec, element by element: for a component of EACH class (BeamSplitter, PhaseShifter, Loss - plain or Parameter-valued - Barrier, ModeSwaps, UnitaryMatrix, Group) with all data symbolic the image has its modes mapped by x -> x+[x>=mode] (resp. x+mode), swap dictionaries mapped on keys and values in order, unitary blocks expanded exactly when the new mode lies strictly inside, group heralds shifted relative to the group, Parameter objects shared (not copied) and the argument element untouched; that the functions map this update over a list of any length is the obligation loop.independent-iterations (vf/pyvc/maploop.py: definite assignment within an iteration, one append per iteration, no shared scratch object). BOUNDED (mechanism C, exhaustive, labelled bounded, never counted as proved): the contract of "
     "Circuit.add itself - ModeRangeError iff the visible span is too short; otherwise U_full, heralds, internal modes, n_modes and "
     "input_modes of the result equal the composition wire(P,S,m) built from the statement (new ancillas located by search), old ancillas "
     "untouched; argument unchanged - over every history of <=1 earlier heralded addition and one checked addition, parents <=3 (quick) / "
@@ -25,6 +25,8 @@ NSHARDS = 8
 def units(tier):
     u = pyvc_units("C02", MODULES)
     u.append(dict(kind="func", mechanism="lemmas (D: z3 induction schemas)", name="lemmas:z3", module="vf.lemmas.z3lemmas", func="unit"))
+    u.append(dict(kind="func", mechanism="pyvc map-loop pass (A: iterations independent, one append per iteration)", name="maploop:circuit_utils", module="vf.pyvc.maploop", func="unit",
+                  args=dict(functions=[["lightworks/sdk/circuit/circuit_utils.py", "add_empty_mode_to_circuit_spec"], ["lightworks/sdk/circuit/circuit_utils.py", "add_modes_to_circuit_spec"]])))
     for k in range(NSHARDS):
         u.append(dict(kind="func", mechanism="bounded runtime contract (C)", name=f"bounded:Circuit.add[{k}/{NSHARDS}]",
                       module="vf.tasks.t_add", func="unit", args=dict(shard=k, nshards=NSHARDS)))
